@@ -31,7 +31,8 @@ CHECKS["C15"] = {
             "dependencies-subset-of-seen, seen.add in the same branch, progress-or-ValueError sweep, every copy's depends_on merged on every "
             "path, conflict and missing-dependency raises before emission) and the wiring metadata -> executor -> template slot. These are "
             "necessary conditions of the property; correctness of the ordering algorithm over every graph is not proved.",
-    "note": "Trusted: the emit-when-dependencies-seen scheme is correct given its guards. Not decided: algorithmic correctness for all graphs/arrival orders.",
+    "note": "Trusted: the emit-when-dependencies-seen scheme is correct given its guards. Not decided: algorithmic correctness for all graphs/arrival orders; a "
+            "rewrite that decides readiness in another way (counters, a work list) is answered `not decided` (exit 2), never a pass and never an alarm.",
     "technique": "syntax-directed control dependence + structured path enumeration over ast; jinja2 parse tree for the slot",
 }
 
@@ -85,8 +86,9 @@ CHECKS["C01"] = {
             "at the mainline scope, top_level_scope() only at frozen sites, both CMS configurations process all events, Range filled by std::iota before its loop, retain_scope defaults, the -d input replaces the list. Breaking any of them "
             "breaks rows/values for some query; holding all of them does not prove the rows right.",
     "note": "Not decided (needs execution): LINQ row/value equivalence for all queries x events; the runtime scope algebra of util_scope "
-            "(starts_with, deepest_scope, [-1]) and code_fill_ttree's placement decisions; func_adl's own normalisations. Six known findings "
-            "(hoisted Range bounds and Aggregate seed, miniAOD maxEvents=10, First() of nested sequences, terminals after SelectMany) are listed in known_findings.txt.",
+            "(starts_with, deepest_scope, [-1]) and code_fill_ttree's placement decisions; func_adl's own normalisations. Known findings "
+            "(hoisted Aggregate seed, miniAOD maxEvents=10, First() of nested sequences, terminals after SelectMany, two uses of one bound sequence "
+            "sharing a loop) are listed in known_findings.txt; the hoisted Range bounds were repaired (db2d94b).",
     "technique": "abstract interpretation of the emission cursor (typestate) over structured paths + def-use checks on ast",
 }
 CHECKS["C04"] = {
